@@ -71,7 +71,7 @@ func checkTile(c *mc.Ctx, t maptile.Tile, bounds bool) {
 	} else if t.Parent() != t {
 		c.Failf("parent", "parent of the root is %v", t.Parent())
 	}
-	if z < 30 {
+	if z <= 30 {
 		ch := t.Children()
 		seen := map[maptile.Tile]bool{}
 		for _, k := range ch {
